@@ -91,4 +91,21 @@ def writeJson (size limit : Nat) (closeFails : Bool) (arr : List (Nat × Bytes))
   let b0 : BW := (⟨size, [], false, ⟨limit, [], closeFails⟩⟩ : BW).write openJson
   closeW ((run emitJson emitJson ⟨b0, false⟩ arr).acc.bw.write closeJson)
 
+/-! ## owned / not owned output
+
+`CompressStream(out, compressed, close)`: `Wfile.Close` calls `out.Close()` only when `close` is set
+(`OptionCloseFile`); `WriteJSONToStdout` / `WriteCSVToStdout` use `OptionDontCloseFile`: the final flush is still
+checked, a failing `Close` of the output cannot be met. -/
+
+def closeWO (own : Bool) (b : BW) : Outcome × Bytes :=
+  let b := b.flush
+  if b.err || (own && b.sink.closeFails) then (.fatal, b.sink.got) else (.ok, b.sink.got)
+
+def writeRawO (size limit : Nat) (closeFails own : Bool) (arr : List (Nat × Bytes)) : Outcome × Bytes :=
+  closeWO own (run emitRaw emitRaw ⟨size, [], false, ⟨limit, [], closeFails⟩⟩ arr).acc
+
+def writeJsonO (size limit : Nat) (closeFails own : Bool) (arr : List (Nat × Bytes)) : Outcome × Bytes :=
+  let b0 : BW := (⟨size, [], false, ⟨limit, [], closeFails⟩⟩ : BW).write openJson
+  closeWO own ((run emitJson emitJson ⟨b0, false⟩ arr).acc.bw.write closeJson)
+
 end ObiVerif.WriteErr
